@@ -803,6 +803,174 @@ func c09GenSParams(r *vRand) (string, []string) {
 	return "sp", []string{strconv.Itoa(kind), vHex(vValidStr(r, 3)), attrs(5), strconv.Itoa(vPick(r, []int{0, 0, 1, 3})), strconv.Itoa(dec), attrs(4)}
 }
 
+// ---- Sampler.Description() of the stock samplers
+// Line: `desc <gen> <prefix encoding> => <hex Description()>`; encoding: A · N · R <ftok> <hex of the %g text> · P + 5 sub-expressions
+// (root, remoteParentSampled, remoteParentNotSampled, localParentSampled, localParentNotSampled = the EFFECTIVE configuration:
+// the generator omits options that equal the default, shuffles them and sometimes gives an overridden one first).
+func c09DescFromToks(toks []string) (Sampler, []string) {
+	switch toks[0] {
+	case "A":
+		return AlwaysSample(), toks[1:]
+	case "N":
+		return NeverSample(), toks[1:]
+	case "R":
+		return TraceIDRatioBased(c09F(toks[1])), toks[3:]
+	case "P":
+		rest := toks[1:]
+		var sub [5]Sampler
+		for i := range sub {
+			sub[i], rest = c09DescFromToks(rest)
+		}
+		return ParentBased(sub[0], WithRemoteParentSampled(sub[1]), WithRemoteParentNotSampled(sub[2]),
+			WithLocalParentSampled(sub[3]), WithLocalParentNotSampled(sub[4])), rest
+	}
+	panic("bad desc token " + toks[0])
+}
+
+func c09DescGen(r *vRand, depth int) ([]string, Sampler) {
+	if depth < 2 && r.Intn(3) != 0 {
+		toks := []string{"P"}
+		rt, root := c09DescGen(r, depth+1)
+		toks = append(toks, rt...)
+		defaults := []string{"A", "N", "A", "N"}
+		mk := []func(Sampler) ParentBasedSamplerOption{WithRemoteParentSampled, WithRemoteParentNotSampled, WithLocalParentSampled, WithLocalParentNotSampled}
+		var opts []ParentBasedSamplerOption
+		for i := 0; i < 4; i++ {
+			var st []string
+			var sub Sampler
+			if r.Intn(3) == 0 {
+				st = []string{defaults[i]}
+				if defaults[i] == "A" {
+					sub = AlwaysSample()
+				} else {
+					sub = NeverSample()
+				}
+			} else {
+				st, sub = c09DescGen(r, depth+1)
+			}
+			toks = append(toks, st...)
+			if len(st) == 1 && st[0] == defaults[i] && r.Intn(2) == 0 {
+				continue // the default: option omitted
+			}
+			if r.Intn(5) == 0 {
+				opts = append(opts, mk[i](TraceIDRatioBased(0.125))) // overridden by the later option of the same kind
+			}
+			opts = append(opts, mk[i](sub))
+		}
+		// the four kinds are independent: any order of DIFFERENT kinds gives the same configuration (rotate)
+		if k := r.Intn(len(opts) + 1); k > 0 && k < len(opts) && r.Intn(2) == 0 {
+			ok := true // rotating must not move an overriding duplicate before its victim: only rotate duplicate-free lists
+			seen := map[string]bool{}
+			for _, o := range opts {
+				n := fmt.Sprintf("%T", o)
+				if seen[n] {
+					ok = false
+				}
+				seen[n] = true
+			}
+			if ok {
+				opts = append(opts[k:], opts[:k]...)
+			}
+		}
+		return toks, ParentBased(root, opts...)
+	}
+	switch r.Intn(4) {
+	case 0:
+		return []string{"A"}, AlwaysSample()
+	case 1:
+		return []string{"N"}, NeverSample()
+	}
+	f := c09RandRatio(r)
+	if r.Intn(4) == 0 {
+		f = vPick(r, c09BoundaryRatios())
+	}
+	return []string{"R", c09Ftok(f), vHex(strconv.FormatFloat(f, 'g', -1, 64))}, TraceIDRatioBased(f)
+}
+
+// ---- uniqueness, observed through the API: several providers x several goroutines; and a custom generator that repeats
+// an id once — the SDK does NOT de-duplicate, the repeated id must come through unchanged.
+// Line: `uniq2 <gen> <providers> <goroutines> <spans per goroutine> => <duplicate span ids> <invalid ids> <repeated id passed through 0|1>`
+type c09RepeatGen struct {
+	mu sync.Mutex
+	n  int
+}
+
+func (g *c09RepeatGen) NewIDs(context.Context) (trace.TraceID, trace.SpanID) {
+	g.mu.Lock()
+	defer g.mu.Unlock()
+	g.n++
+	k := g.n
+	if k == 3 {
+		k = 2 // the third call repeats the second one's ids
+	}
+	return trace.TraceID{0xaa, byte(k)}, trace.SpanID{0xbb, byte(k)}
+}
+func (g *c09RepeatGen) NewSpanID(ctx context.Context, _ trace.TraceID) trace.SpanID {
+	_, s := g.NewIDs(ctx)
+	return s
+}
+
+func c09Uniq2(np, ng, per int) string {
+	var mu sync.Mutex
+	seen := map[trace.SpanID]int{}
+	invalid := 0
+	var wg sync.WaitGroup
+	for p := 0; p < np; p++ {
+		tp := NewTracerProvider(WithSampler(vPick(&vRand{s: uint64(p) + 1}, []Sampler{AlwaysSample(), NeverSample(), ParentBased(AlwaysSample())})))
+		defer func() { _ = tp.Shutdown(context.Background()) }()
+		tr := tp.Tracer("verif")
+		for g := 0; g < ng; g++ {
+			wg.Add(1)
+			go func() {
+				defer wg.Done()
+				local := make([]trace.SpanContext, 0, 2*per)
+				for i := 0; i < per; i++ {
+					ctx, s := tr.Start(context.Background(), "r")
+					_, c := tr.Start(ctx, "c")
+					local = append(local, s.SpanContext(), c.SpanContext())
+					if c.SpanContext().TraceID() != s.SpanContext().TraceID() {
+						mu.Lock()
+						invalid++
+						mu.Unlock()
+					}
+					c.End()
+					s.End()
+				}
+				mu.Lock()
+				for _, sc := range local {
+					seen[sc.SpanID()]++
+					if !sc.IsValid() {
+						invalid++
+					}
+				}
+				mu.Unlock()
+			}()
+		}
+	}
+	wg.Wait()
+	dups := 0
+	for _, n := range seen {
+		if n > 1 {
+			dups += n - 1
+		}
+	}
+	// custom generator repeating itself once
+	tp := NewTracerProvider(WithIDGenerator(&c09RepeatGen{}), WithSampler(AlwaysSample()))
+	defer func() { _ = tp.Shutdown(context.Background()) }()
+	var got []trace.SpanContext
+	for i := 0; i < 4; i++ {
+		_, s := tp.Tracer("verif").Start(context.Background(), "x")
+		got = append(got, s.SpanContext())
+		s.End()
+	}
+	pass := "0"
+	if got[1].SpanID() == got[2].SpanID() && got[1].TraceID() == got[2].TraceID() && got[0].SpanID() != got[1].SpanID() &&
+		got[3].SpanID() == (trace.SpanID{0xbb, 4}) {
+		pass = "1"
+	}
+	return fmt.Sprintf("%d %d %s", dups, invalid, pass)
+}
+
 // ---- tree generation
 var c09TraceStates = []string{"", "", "a=1", "b=2,a=1", "vendor@sys=x:y", "k=" + strings.Repeat("v", 40), "a=1,b=2,c=3,d=4"}
 
@@ -978,6 +1146,14 @@ func TestVerifC09Sampling(t *testing.T) {
 			case "env":
 				in[3] = strconv.FormatUint(nanc, 10)
 				out.Line("env %s %s => %s", f[1], strings.Join(in, " "), c09RunEnv(in, c09ArgFor(in[2])))
+			case "desc":
+				smp, _ := c09DescFromToks(in)
+				out.Line("desc %s %s => %s", f[1], strings.Join(in, " "), vHex(smp.Description()))
+			case "uniq2":
+				a, _ := strconv.Atoi(in[0])
+				b, _ := strconv.Atoi(in[1])
+				c, _ := strconv.Atoi(in[2])
+				out.Line("uniq2 %s %d %d %d => %s", f[1], a, b, c, c09Uniq2(a, b, c))
 			case "sparams":
 				out.Line("sparams %s %s => %s", f[1], strings.Join(in, " "), c09RunSParams(in))
 			case "prov":
@@ -998,6 +1174,11 @@ func TestVerifC09Sampling(t *testing.T) {
 		un = 10000000
 	}
 	out.Line("uniq default %d => %s", un, c09Uniq(un))
+	if os_exhaustive() {
+		out.Line("uniq2 api 4 8 20000 => %s", c09Uniq2(4, 8, 20000))
+	} else {
+		out.Line("uniq2 api 3 4 3000 => %s", c09Uniq2(3, 4, 3000))
+	}
 	if os_exhaustive() {
 		// pairs-of-ratios sweep is implicit: every boundary ratio is run against the boundary ids of every other one
 		rs := c09BoundaryRatios()
@@ -1025,6 +1206,10 @@ func TestVerifC09Sampling(t *testing.T) {
 			gen, f, arg := c09GenEnv(r)
 			f = append(f, strconv.FormatUint(nanc, 10))
 			out.Line("env %s %s => %s", gen, strings.Join(f, " "), c09RunEnv(f, arg))
+			i++
+		case k == 9:
+			toks, smp := c09DescGen(r, 0)
+			out.Line("desc rnd %s => %s", strings.Join(toks, " "), vHex(smp.Description()))
 			i++
 		case k < 7:
 			gen, f := c09GenSParams(r)
